@@ -76,6 +76,7 @@ class SimSlave:
         self.slow: dict[str, str] = {}            # port id -> 'later' | 'never': value writes are answered 202
         self.fail_next: set[str] = set()          # port ids whose next PATCH (attributes or value) answers 502
         self.pusher = None                        # pushed-events mode: callable(event json) posting to the master
+        self.inflight = 0                         # requests (other than the long-poll) sent by the master, not yet answered
         self._flush_scheduled = False
         self._serial = 0
         SIMS[self.host] = self
@@ -405,12 +406,17 @@ class SimHTTPClient(httpclient.AsyncHTTPClient):
                 req_body = {'__malformed__': request.body.decode('latin1')}
 
         answered = [False]         # exactly one outcome per request reaches the master
+        counted = sim is not None and not u.path.rstrip('/').endswith('/listen')
+        if counted:
+            sim.inflight += 1
 
         def fail(exc, delay):
             def cb():
                 if answered[0]:
                     return
                 answered[0] = True
+                if counted:
+                    sim.inflight -= 1
                 if sim is not None:
                     sim.trace.append(('fail', round(loop.time(), 6), request.method, u.path, req_body, 599, None))
                 callback(httpclient.HTTPResponse(
@@ -451,6 +457,8 @@ class SimHTTPClient(httpclient.AsyncHTTPClient):
                 if answered[0]:
                     return
                 answered[0] = True
+                if counted:
+                    sim.inflight -= 1
                 data = b'' if obj is None and code == 204 else json.dumps(obj).encode()
                 sim.trace.append(('deliver', round(loop.time(), 6), request.method, u.path, req_body, code,
                                   copy.deepcopy(obj)))
